@@ -2,6 +2,7 @@ package vgen
 
 import (
 	"fmt"
+	"math/big"
 	"sort"
 
 	"github.com/onflow/cadence"
@@ -23,8 +24,12 @@ type Info struct {
 	HasIntersection    bool
 	HasNilType         bool // a nil type inside a type value / capability
 	InlineFunctionType bool // a function type in a value position (array element type, field type, borrow type...)
-	Nodes              int
-	inlinePos          bool
+	// dictionaries whose key set mixes signs / encoded lengths / path domains
+	DictMixedSignKeys    bool
+	DictMixedLengthKeys  bool
+	DictMixedPathDomains bool
+	Nodes                int
+	inlinePos            bool
 }
 
 // Inspect walks v.
@@ -76,6 +81,40 @@ func (in *Info) value(v cadence.Value) int {
 		}
 		if len(x.Pairs) > in.MaxDictEntries {
 			in.MaxDictEntries = len(x.Pairs)
+		}
+		// key sets whose encodings differ in sign / length / domain (order-sensitive codecs)
+		var neg, nonneg, small, large bool
+		domains := map[string]bool{}
+		lens := map[int]bool{}
+		for _, p := range x.Pairs {
+			if b := BigOf(p.Key); b != nil {
+				if b.Sign() < 0 {
+					neg = true
+				} else {
+					nonneg = true
+				}
+				if new(big.Int).Abs(b).Cmp(big.NewInt(24)) < 0 {
+					small = true
+				} else {
+					large = true
+				}
+			}
+			switch k := p.Key.(type) {
+			case cadence.Path:
+				domains[k.Domain.Identifier()] = true
+				lens[len(k.Identifier)] = true
+			case cadence.String:
+				lens[len(k)] = true
+			}
+		}
+		if neg && nonneg {
+			in.DictMixedSignKeys = true
+		}
+		if small && large || len(lens) > 1 {
+			in.DictMixedLengthKeys = true
+		}
+		if len(domains) > 1 {
+			in.DictMixedPathDomains = true
 		}
 		for _, p := range x.Pairs {
 			sub(p.Key)
